@@ -29,7 +29,7 @@ SIG = dict(opt_flags=['-disable-loop-idiom-all'],   # keep the recorders' byte l
                   '^_ZN4llvm12hash_combineIJNS_9hash_codeENSt7__cxx1112basic_stringIcSt11char_traitsIcESaIcEEEEEES1_DpRKT_$=stub_hash_cs'],
            noinline=['SignatureTask15inputsAvailable'], expect_functions=['SignatureTask15inputsAvailable'],
            stub_virtual=['SignatureTask(5start|12provideValue|17providePriorValue)', '^_ZN7llbuild4core4Task'], allow_external=['^_ZTV'],
-           assert_external=['.'], unwind=34, unwind_loops=[('harness_sig|encInfo|stub_complete', 84)], copy_unwind=100, timeout=600, cbmc_flags=['--object-bits', '10'])
+           assert_external=['.'], unwind=34, unwind_loops=[('harness_sig|encInfo|stub_complete|intern|stub_hash', 100)], copy_unwind=100, timeout=600, cbmc_flags=['--object-bits', '10'])
 OBLIGATIONS = [
     dict(SIG, name='G1.tree-signature', params_quick=[{'VF_STRUCT': 0, 'VF_NC': 1}], params_thorough=[{'VF_STRUCT': 0, 'VF_NC': n} for n in (1, 2)]),
     dict(SIG, name='G2.structure-signature', params_quick=[{'VF_STRUCT': 1, 'VF_NC': 1}], params_thorough=[{'VF_STRUCT': 1, 'VF_NC': n} for n in (1, 2)]),
